@@ -85,11 +85,140 @@ def must_write(rep, prog, rule):
         rep.floor(rule, "impls of %s" % tr_suffix, n, 26 if "Convolution" in tr_suffix else 24)
 
 
+def temp_size(rep, prog, rule):
+    """sizes of the intermediate images"""
+    from ..sym import Sym, fmt
+    rep.rule(rule, "the width and height of every intermediate image the resizer creates "
+             "(get_temp_image_from_buffer) that come out of a floating-point computation are "
+             "not the result of a division by a caller-controlled value that may be zero: a "
+             "zero divisor makes the quotient infinite, the size 0 after the conversion, the "
+             "pass that fills the intermediate image and the pass that reads it both return at "
+             "their zero-size guard and the destination is left unwritten although the call "
+             "succeeds (every divisor must be positive by a guard on the path, by its type "
+             "range or by construction; a divisor that is an unguarded integer argument whose "
+             "type includes 0 is a violation, anything else undecided)")
+    INT = ("u8", "u16", "u32", "u64", "usize")
+    n = 0
+    for f in sorted(prog.fns.values(), key=lambda x: x.id):
+        if f.file != "src/resizer.rs":
+            continue
+        sites = [c for c in f.calls() if short_name(c.name) == "get_temp_image_from_buffer"]
+        if not sites:
+            continue
+        rep.touch(f)
+        sym = Sym(f)
+        for c in sites:
+            facts = sym.facts_at(c.bb)
+
+            def positive(e, depth=0):
+                """'yes' | 'no: <why>' | 'unknown: <why>' -- is e > 0 (and finite)?"""
+                while isinstance(e, tuple) and e and e[0] == "cast" and e[1] in ("FloatToFloat", "IntToInt"):
+                    e = e[2]
+                if depth > 12 or not isinstance(e, tuple) or not e:
+                    return "unknown: %s" % fmt(e)[:60]
+                if e[0] == "const":
+                    return "yes" if isinstance(e[1], (int, float)) and e[1] > 0 else "no: constant %s" % (e[1],)
+                if e[0] == "cast" and e[1] == "IntToFloat":
+                    x = e[2]
+                    while isinstance(x, tuple) and x and x[0] == "cast" and x[1] == "IntToInt":
+                        x = x[2]
+                    for (cc, v) in facts:
+                        if cc[0] == "bin" and cc[2] == x and cc[3][0] == "const" and cc[3][1] == 0:
+                            if (cc[1] == "Eq" and v is False) or (cc[1] == "Ne" and v is True) or \
+                                    (cc[1] == "Gt" and v is True) or (cc[1] == "Le" and v is False):
+                                return "yes"
+                    if x[0] in ("call", "callat"):
+                        nm = x[1] if x[0] == "call" else x[2]
+                        args = x[2] if x[0] == "call" else x[3]
+                        if nm == "max" and len(args) == 2 and any(
+                                a[0] == "const" and isinstance(a[1], int) and a[1] >= 1 for a in args):
+                            return "yes"
+                        if nm == "get" and "NonZero" in fmt(x):
+                            return "yes"
+                    if x[0] == "param" and f.local_ty(x[1]) in INT:
+                        return "no: `%s` is an argument of type %s and nothing on the path " \
+                               "excludes 0" % (x[2], f.local_ty(x[1]))
+                    return "unknown: %s" % fmt(x)[:60]
+                if e[0] == "bin" and e[1] in ("Div", "Mul"):
+                    a, b = positive(e[2], depth + 1), positive(e[3], depth + 1)
+                    for r in (b, a):
+                        if r.startswith("no"):
+                            return r
+                    for r in (b, a):
+                        if r != "yes":
+                            return r
+                    return "yes"
+                if e[0] in ("call", "callat"):
+                    nm = e[1] if e[0] == "call" else e[2]
+                    args = e[2] if e[0] == "call" else e[3]
+                    if nm in ("min", "max") and len(args) == 2:
+                        a, b = positive(args[0], depth + 1), positive(args[1], depth + 1)
+                        if nm == "max" and "yes" in (a, b):
+                            return "yes"
+                        for r in (a, b):
+                            if r.startswith("no"):
+                                return r
+                        for r in (a, b):
+                            if r != "yes":
+                                return r
+                        return "yes"
+                # a float value: positive when a guard on the path says so
+                for (cc, v) in facts:
+                    if cc[0] == "bin" and cc[2] == e and cc[3][0] == "const" and cc[3][1] in (0, 0.0):
+                        if (cc[1] == "Le" and v is False) or (cc[1] == "Gt" and v is True):
+                            return "yes"
+                return "unknown: %s" % fmt(e)[:60]
+
+            def divisors(e, acc, depth=0):
+                if not isinstance(e, tuple) or not e or depth > 30:
+                    return
+                if e[0] == "bin" and e[1] == "Div":
+                    acc.append(e[3])
+                for x in (e[1:] if isinstance(e[0], str) else e):
+                    if isinstance(x, tuple):
+                        divisors(x, acc, depth + 1)
+                    elif isinstance(x, (list,)):
+                        for y in x:
+                            divisors(y, acc, depth + 1)
+
+            for ai, axis in ((1, "width"), (2, "height")):
+                if ai >= len(c.args):
+                    continue
+                e = sym.operand(c.args[ai], (c.bb, "term"))
+                s_ = fmt(e)
+                if "FloatToInt" not in str(e):
+                    continue            # an integer size (checked by the arithmetic rules)
+                n += 1
+                ds = []
+                divisors(e, ds)
+                key = "%s|%s" % (f.name, axis)
+                verdicts = [(d, positive(d)) for d in ds]
+                bad = [(d, v) for d, v in verdicts if v.startswith("no")]
+                unk = [(d, v) for d, v in verdicts if v.startswith("unknown")]
+                if bad:
+                    d, v = bad[0]
+                    rep.bad(rule, "%s|zero-divisor" % key, c.at,
+                            "%s of the intermediate image = %s: the divisor %s can be zero (%s); the "
+                            "intermediate image then has size 0 and nothing is resized"
+                            % (axis, s_[:120], fmt(d)[:60], v[4:]))
+                elif unk:
+                    rep.unk(rule, key, c.at, "divisor %s" % "; ".join(v for _, v in unk)[:200])
+                else:
+                    rep.ok(rule, key, c.at, "%d divisors on the way to the %s are positive" % (len(ds), axis))
+    rep.floor(rule, "float-derived sizes of intermediate images", n, 2)
+
+
+def short_name(name):
+    import re as _re
+    return _re.sub(r"<[^>]*>", "", name).rsplit("::", 1)[-1]
+
+
 def run(rep, tier):
     cfgs = ["x86"] if tier == "quick" else ["x86", "x86-rayon", "arm", "wasm"]
     for cfg, prog in programs(cfgs):
         rep.set_cfg(cfg)
         rep.call(must_write, rep, prog, "C05.must-write")
+        rep.call(temp_size, rep, prog, "C05.temp-size")
         rep.call(views.rows_bounded, rep, prog, "C05.rows-bounded")
         rep.call(row_coverage.group_tail, rep, prog, "C05.kernel-rows")
         rep.call(index_rules.cropped_row_slices, rep, prog, "C05.view-rect")
